@@ -213,4 +213,17 @@ META = {
         note=("Trusted: as C09 + unwinding through block_on leaves globals usable (validated by the second in-process run). Deviations witnessed by theorems, not repaired: joined-task panics ignore on_panic_catch and do not deactivate (F-C13b); "
               "at_sim_end and overdue tasks of a panicked module run at simulation end (F-C13c). Non-interference relative to the inactive reference run; error equality proved up to, and per module during, at_sim_end."),
         technique=_T),
+    "C04": dict(
+        text=("Lean 4 non-interference theorems about a net-kernel model (Repro) in which every process-global identifier is explicit state drawn from an arbitrary "
+              "injective Ambient supply (module id per module, sender id per message, sleep id per Sleep and per timer-slot entry; timer entries removed BY id when select! "
+              "drops losing sleeps, senders resolved BY id) and randomness is an explicit stream consumed in dispatch order (tokio RngSeed per module, random(), channel jitter, "
+              "select! start index per poll): the whole run under ambient a is the id-renaming of the canonical run at every step (C04.states_related_by_renaming), hence trace, "
+              "time, event count, result are ambient-independent (C04.run_ambient_independent / trace_ambient_independent), a second simulation does not see the counters the first "
+              "left behind (C04.second_run_independent_of_first), the stream is consumed from the front only and draw order is ambient-independent, dispatch = FES.fetch. Tied to the code "
+              "by executing every generated (model, seed) four times (twice back to back, after a noise simulation, in a child process), comparing the canonical traces, and replaying the model on the recorded stream."),
+        design_ref="DESIGN.md §5 C04",
+        note=("Partial: StdRng / tokio FastRand are inputs (equal seeds => equal streams is checked only by the four real executions); tokio 1.45.1 current-thread scheduling order is a hand transcription "
+              "validated by the correspondence runs; receives, LocalSet, shutdown/restart, busy channels not generated. Trusted: Lean kernel; axioms propext/Quot.sound; harness, driver parser, orchestrator. "
+              "Open finding F-C04a: tokio drops unfinished tasks in an order that depends on the process-global task-id counter. Model mirrors /repo after fixes F-C04b (build-time clock) and F-C04c (ModuleId::NULL after wrap)."),
+        technique=_T),
 }
